@@ -19,7 +19,7 @@ LIBS = {
     "SocketAddr": "std::net::SocketAddr", "Duration": "std::time::Duration", "SystemTime": "std::time::SystemTime",
     "IoError": "std::io::Error", "Canary1": "savefile::Canary1", "DateTimeUtc": "chrono::DateTime<chrono::Utc>",
     "BitVec": "bit_vec::BitVec", "BitSet": "bit_set::BitSet", "BitVec08": "bit_vec08::BitVec", "BitSet08": "bit_set08::BitSet",
-    "PhantomData": "std::marker::PhantomData<u8>",
+    "PhantomData": "std::marker::PhantomData<u8>", "RecTree": "vcommon::RecTree", "RecList": "vcommon::RecList",
 }
 for a in ["Bool", "U8", "I8", "U16", "I16", "U32", "I32", "U64", "I64", "Usize", "Isize"]:
     LIBS["Atomic" + a] = "std::sync::atomic::Atomic" + a
